@@ -81,8 +81,16 @@ def cases(rng, tier):
     for i, parts in enumerate(big):
         for st in (list(SETTINGS) if i < 12 or tier != "quick" else [rng.choice(list(SETTINGS))]):
             yield {"kind": "bigconv", "setting": st, "parts": parts}
-    for i, parts in enumerate(big[: (10 if tier == "quick" else 40)]):
+    for i, parts in enumerate(big[: (6 if tier == "quick" else 40)]):
         yield {"kind": "bigcheckout", "setting": ["crlf", "lf", "native", "crlf-with-crlf-in-repo"][i % 4], "parts": parts}
+    # canonical LF text whose working-tree form has CR LF straddling typical read-buffer sizes,
+    # and the filtered size/sha1 the dirstate uses to decide "unchanged"
+    for boundary in (65000, 65536, 8192, 131072):
+        for parts in ([[97, boundary - 1], [10, 1], [98, 5]],
+                      [[97, boundary - 2], [10, 1], [98, boundary - 1], [10, 1], [99, 3]]):
+            yield {"kind": "bigcheckout", "setting": "crlf", "parts": parts}
+            yield {"kind": "bigsha", "setting": "crlf", "parts": parts}
+        yield {"kind": "bigsha", "setting": "lf", "parts": [[97, boundary + 3], [10, 1], [0, 1], [13, 1], [10, 1]]}
     # real checkouts
     nco = 40 if tier == "quick" else 400
     pool = [b"a\nb\n", b"a\r\nb\r\n", b"\r\r\n", b"a\x00\r\n", b"a\rb", b"", b"\n", b"\r\n"]
@@ -136,6 +144,23 @@ def _setrule(s):
 def impl(inp):
     big = inp["kind"].startswith("big")
     x = _expand(inp["parts"]) if big else bytes(inp["x"])
+    if inp["kind"] == "bigsha":
+        import hashlib
+        from breezy.filters import filtered_input_file, filtered_output_bytes, internal_size_sha_file_byname
+        from breezy.filters.eol import eol_lookup
+        filters = eol_lookup(inp["setting"])
+        w = b"".join(filtered_output_bytes([x], filters))
+        _state["n"] += 1
+        name = os.path.join(_state["dir"], "sha%d" % _state["n"])
+        with open(name, "wb") as f:
+            f.write(w)
+        try:
+            size, sha = internal_size_sha_file_byname(name, filters)
+        finally:
+            os.unlink(name)
+        rr = filtered_input_file(io.BytesIO(w), filters)[0].read()
+        sha = sha.decode() if isinstance(sha, bytes) else sha
+        return [size, sha == hashlib.sha1(rr).hexdigest()]
     if inp["kind"] in ("conv", "bigconv"):
         from breezy.filters import filtered_input_file, filtered_output_bytes
         from breezy.filters.eol import eol_lookup
@@ -174,7 +199,7 @@ def impl(inp):
 
 def model_term(inp):
     if inp["kind"].startswith("big"):
-        f = "run_big" if inp["kind"] == "bigconv" else "run_checkout_big"
+        f = {"bigconv": "run_big", "bigcheckout": "run_checkout_big", "bigsha": "run_sha_big"}[inp["kind"]]
         parts = "[" + "; ".join(f"({b}%N, {n}%N)" for b, n in inp["parts"]) + "]"
         return f"{f} {SETTINGS[inp['setting']]} {parts}"
     f = "run_case" if inp["kind"] == "conv" else "run_checkout"
@@ -198,6 +223,12 @@ def oracle(inp, obs):
                 return None
             if dr0 == _digest(x) and not same:
                 return "canonical long text does not round-trip"
+            return None
+        if inp["kind"] == "bigsha":
+            size, shaok = obs
+            canonical = filtered_input_file(io.BytesIO(x), flt)[0].read() == x
+            if canonical and 0 not in x and (size != len(x) or not shaok):
+                return f"filtered size/sha1 of the working file of a canonical {len(x)}-byte text differ from the stored text"
             return None
         ddisk, clean = obs
         canonical = filtered_input_file(io.BytesIO(x), flt)[0].read() == x
